@@ -67,7 +67,9 @@ def special_docs(rng, index):
   N = -1
   base = {"n": 5, "kind": ["body", "div", "p", "span", "text"], "parent": [0, 1, 2, 3, 4], "b": [N, N, 4, N, N], "e": [N, N, 8, N, N],
           "reg": [0, 1, 0, 0, 0], "disp": [""] * 5, "anim": [[] for _ in range(5)], "txt": [0, 0, 0, 0, 1],
-          "nr": 2, "rb": [N, N], "re": [N, N], "rdisp": ["", ""], "ranim": [[], []], "rbg": ["always", "always"], "idisp": "", "D": 2}
+          "nr": 2, "rb": [N, N], "re": [N, N], "rdisp": ["", ""], "ranim": [[], []], "rbg": ["always", "always"], "idisp": "", "D": 2,
+          # text with characters that a serialisation may want to clean up (the SOURCE must keep them whatever is written)
+          "text": [None, None, None, None, "bell\x07 esc\x1b nul\x00 \ufffe end"]}
   bgtok = index["BackgroundColor"][0]
   d1 = json.loads(json.dumps(base))
   d1["rstyles"] = [[], [["BackgroundColor", bgtok]]]            # region 2 paints a background always, without content
@@ -257,7 +259,8 @@ def run(ctx):
     origin[rid] = ad
   for _ in range(4000 if thorough else 400):
     rid += 1
-    ad = random_doc(ctx.rng, max_nodes=25)
+    # (half of them with literal texts: white space in all positions, so that spans and paragraphs collapse to nothing)
+    ad = random_doc(ctx.rng, max_nodes=25, space=ctx.rng.random() < 0.5)
     decorate(ad, ctx.rng, index, p_style=0.25, p_anim=0.2)
     jobs.append((ad, rid, None, False, True))
     origin[rid] = ad
